@@ -1559,6 +1559,13 @@ var corpus = [][]string{
 	// two replacements in a row, the second before the delayed push of the first: the first stream must go too
 	{"join 0 g p", "join 1 g v", "request 1 _=av", "offer 0 s1 cam - av", "track 0 s1 0 a", "track 0 s1 1 v", "settle",
 		"offer 0 s2 cam s1 av", "offer 0 s3 cam s2 av", "track 0 s3 0 a", "track 0 s3 1 v", "settle"},
+	// one subscriber changes its request while the announcement of a new stream is still pending (200 ms): the other
+	// subscribers must still be offered the stream (and be told when the stream it replaces goes away)
+	{"join 0 g p", "join 1 g v", "join 2 g v", "request 1 _=av", "request 2 _=av", "offer 0 s1 cam - av", "track 0 s1 0 a",
+		"track 0 s1 1 v", "request 1 _=a", "settle", "offer 0 s2 cam s1 av", "track 0 s2 0 a", "track 0 s2 1 v", "request 1 _=av",
+		"settle", "close 0 s2", "request 2 _=a", "settle"},
+	{"join 0 g p", "join 1 g v", "join 2 g v", "join 3 g v", "request 1 _=av", "request 2 _=al", "offer 0 s1 scr - av", "track 0 s1 0 a",
+		"track 0 s1 1 v", "join 3 g v", "request 3 _=av", "reqstream 2 s1 a", "settle"},
 	// a member that joins and requests between a publisher's offer and the arrival of its tracks
 	{"join 0 g p", "offer 0 s1 cam - av", "join 1 g v", "request 1 _=av", "track 0 s1 0 a", "track 0 s1 1 v", "settle"},
 }
